@@ -434,6 +434,8 @@ def parse_harness_line(line):
                 res.setdefault("kinds", {})[ns] = parse_kinds(toks, 2)[0]
             except Shape as e:
                 res.setdefault("kinds_error", str(e))
+        elif toks[0] == "P":
+            res["previous_write"] = toks[1] if len(toks) == 2 else toks[1] + " " + unhex(toks[2])
         elif toks[0] == "W":
             res["write"] = toks[1] if len(toks) == 2 else toks[1] + " " + unhex(toks[2])
         elif toks[0] == "F":
@@ -1333,3 +1335,35 @@ def sized_project(rng, use_ns):
         sv = "{{ x }}" if li < 3 else ("%s{{ x }}%s" % (a[1], a[2]))
         per[loc] = [("n1", other(rng.choice([3, True, 2.5]))), ("s2", {"kind": "sub", "sub": [("v0", other(sv))]}), ("v0", other(v0))]
     return Project(locales, None, {}, {None: per})
+
+
+# ---------------------------------------------------------------- regeneration into the same directory
+
+REGEN_MODES = ["after_longer", "after_shorter", "after_identical", "after_extra_namespace"]
+
+
+def regen_variant(proj, mode):
+    """the project as it was when the build helper ran the previous time: the same keys with longer texts and one more
+    key per group (its tables serialise longer), with shorter texts (shorter), the same content, or with one more
+    namespace (whose files the second generation does not touch)"""
+    import copy
+    v = copy.deepcopy(proj)
+
+    def walk(tree):
+        for k, node in tree:
+            if node["kind"] == "plain":
+                t = node["text"]
+                t = (t + " — previous, longer wording of this text …") if mode in ("after_longer", "after_extra_namespace") else \
+                    (t[:1] if mode == "after_shorter" else t)
+                node["json"] = node["text"] = t
+            elif node["kind"] == "sub":
+                walk(node["sub"])
+        if mode in ("after_longer", "after_extra_namespace"):
+            tree.append(("zz_removed_since", {"kind": "plain", "json": "a key that was removed afterwards", "text": "a key that was removed afterwards"}))
+    for per in v.units.values():
+        for tree in per.values():
+            walk(tree)
+    if mode == "after_extra_namespace" and v.namespaces:
+        v.namespaces = v.namespaces + ["old_ns"]
+        v.units["old_ns"] = {loc: [("k0", {"kind": "plain", "json": "gone " + loc, "text": "gone " + loc})] for loc in v.locales}
+    return v
